@@ -12,6 +12,7 @@ from ..model import AnalysisError, Program
 from ..paths import CannotEval, SymPath, evaluate, feasible_paths, show, subterms, truth
 from ..report import Report
 from .c18 import report_obligations
+from .runner_flow import KNOWN_MODULES
 
 MARKERS = {"TimeoutError": "TRANSIENT", "PermanentError": "PERMANENT", "RateLimitError": "RATE_LIMIT", "ConcurrencyError": "CONCURRENCY", "ServerError": "SERVER_ERROR"}
 NAME_GROUPS = [(("auth", "unauthoriz", "credential"), "AUTH"), (("forbid", "permission"), "PERMISSION"), (("timeout", "connection"), "TRANSIENT")]
@@ -81,6 +82,63 @@ def result_class(t: Any) -> str | None:
     return None
 
 
+CLASSIFIER_MODULES = ("redress.classify", "redress.extras.http", "redress.extras.sqlstate", "redress.extras.pyodbc")
+
+
+def totality(rep: Report, rid: str, prog: Program, roots: list[str] | None = None, min_ops: int = 25) -> dict:
+    """no operation reachable from the given built-in classifiers can raise; every path returns an ErrorClass"""
+    G, E = cfgs(prog), engine(prog)
+    roots = roots or [
+        "redress.classify:default_classifier", "redress.classify:strict_classifier", "redress.extras.http:http_classifier",
+        "redress.extras.sqlstate:sqlstate_classifier", "redress.extras.pyodbc:pyodbc_classifier",
+    ]
+    funcs: dict[str, dict] = {}
+    todo = [prog.func(r) for r in roots]
+    while todo:
+        f = todo.pop()
+        if f.qual in funcs:
+            continue
+        dom = {}
+        for prm in f.params():
+            if prm.arg in ("err", "exc"):
+                dom[prm.arg] = frozenset({X})
+            if prm.arg == "use_name_heuristics":
+                dom[prm.arg] = frozenset({B})
+        funcs[f.qual] = dom
+        for n in prog._own_nodes(f.node):
+            if isinstance(n, ast.Call):
+                for t in prog.resolve_call(n, f):
+                    if t.kind == "repo" and t.func is not None and (t.func.module.name in CLASSIFIER_MODULES or t.func.module.name not in KNOWN_MODULES):
+                        todo.append(t.func)  # the classifiers' own modules, and any module that did not exist when the rules were written (a helper moved out)
+    for need in (("_classify", "_coerce_status") if len(roots) > 1 else ("_classify",)):
+        if not any(q.split(":")[1] == need for q in funcs):
+            raise AnalysisError(f"anchor vanished from the classifiers' call graph: {need}")
+    n_ops = 0
+    allpaths: dict[str, list[SymPath]] = {}
+    for q, dom in funcs.items():
+        fi = prog.func(q)
+        rep.analysed(q)
+        obs, paths, mr = analyse_function(prog, G, E, fi, domain=dom, call_types={":_coerce_status": frozenset({"Int", "Bool", "None"}), ":_extract_sqlstate": frozenset({"Str", "None"})})
+        allpaths[q] = paths
+        report_obligations(rep, rid, prog, q, obs)
+        open_exprs = {ob.expr[:90] for ob in obs if not ob.discharged_by}
+        for ex in mr.examined:
+            n_ops += 1
+            rep.instance(rid, f"{q.split(':')[1]}|{ex}", {"function": q, "operation": ex} if len(rep.samples) < 16 else None)
+            if not any(o in ex for o in open_exprs):
+                rep.ok(rid)
+        if "classifier" in q or q.endswith("_classify"):
+            for p in paths:
+                rep.instance(rid, f"{q.split(':')[1]}|returns|{show(p.exit[1])[:40] if len(p.exit) > 1 else p.exit}")
+                if p.exit[0] == "return" and (result_class(p.exit[1]) is not None or table_of_classes(prog, fi, p.exit[1])):
+                    rep.ok(rid)
+                else:
+                    rep.fail(rid, f"{q.split(':')[1]}|not-an-ErrorClass", f"{q}: a path ends with {p.exit[0]} {show(p.exit[1]) if len(p.exit) > 1 else ''} instead of returning an ErrorClass", where=fi.where(), function=q, path=p.describe())
+    if n_ops < min_ops:
+        raise AnalysisError(f"R19.1: only {n_ops} raising-capable operations recognised")
+    return allpaths
+
+
 def run(rep: Report, prog: Program, tier: str) -> None:
     rep.explanation = (
         "(R19.1) May-raise analysis with type guards over all paths of _classify, default/strict_classifier, "
@@ -101,58 +159,11 @@ def run(rep: Report, prog: Program, tier: str) -> None:
     G, E = cfgs(prog), engine(prog)
 
     rep.rule("R19.1", "totality: no operation of the built-in classifiers can raise; every path returns an ErrorClass")
-    roots = [
-        "redress.classify:default_classifier", "redress.classify:strict_classifier", "redress.extras.http:http_classifier",
-        "redress.extras.sqlstate:sqlstate_classifier", "redress.extras.pyodbc:pyodbc_classifier",
-    ]
-    funcs: dict[str, dict] = {}
-    todo = [prog.func(r) for r in roots]
-    while todo:
-        f = todo.pop()
-        if f.qual in funcs:
-            continue
-        dom = {}
-        for prm in f.params():
-            if prm.arg in ("err", "exc"):
-                dom[prm.arg] = frozenset({X})
-            if prm.arg == "use_name_heuristics":
-                dom[prm.arg] = frozenset({B})
-        funcs[f.qual] = dom
-        for n in prog._own_nodes(f.node):
-            if isinstance(n, ast.Call):
-                for t in prog.resolve_call(n, f):
-                    if t.kind == "repo" and t.func is not None and t.func.module.name in ("redress.classify", "redress.extras.http", "redress.extras.sqlstate", "redress.extras.pyodbc"):
-                        todo.append(t.func)
-    for need in ("redress.classify:_classify", "redress.extras.http:_coerce_status"):
-        if need not in funcs:
-            raise AnalysisError(f"anchor vanished from the classifiers' call graph: {need}")
-    n_ops = 0
-    allpaths: dict[str, list[SymPath]] = {}
-    for q, dom in funcs.items():
-        fi = prog.func(q)
-        rep.analysed(q)
-        obs, paths, mr = analyse_function(prog, G, E, fi, domain=dom, call_types={":_coerce_status": frozenset({"Int", "Bool", "None"}), ":_extract_sqlstate": frozenset({"Str", "None"})})
-        allpaths[q] = paths
-        report_obligations(rep, "R19.1", prog, q, obs)
-        open_exprs = {ob.expr[:90] for ob in obs if not ob.discharged_by}
-        for ex in mr.examined:
-            n_ops += 1
-            rep.instance("R19.1", f"{q.split(':')[1]}|{ex}", {"function": q, "operation": ex} if len(rep.samples) < 16 else None)
-            if not any(o in ex for o in open_exprs):
-                rep.ok("R19.1")
-        if "classifier" in q or q.endswith("_classify"):
-            for p in paths:
-                rep.instance("R19.1", f"{q.split(':')[1]}|returns|{show(p.exit[1])[:40] if len(p.exit) > 1 else p.exit}")
-                if p.exit[0] == "return" and (result_class(p.exit[1]) is not None or table_of_classes(prog, fi, p.exit[1])):
-                    rep.ok("R19.1")
-                else:
-                    rep.fail("R19.1", f"{q.split(':')[1]}|not-an-ErrorClass", f"{q}: a path ends with {p.exit[0]} {show(p.exit[1]) if len(p.exit) > 1 else ''} instead of returning an ErrorClass", where=fi.where(), function=q, path=p.describe())
-    if n_ops < 25:
-        raise AnalysisError(f"R19.1: only {n_ops} raising-capable operations recognised")
+    allpaths = totality(rep, "R19.1", prog)
 
     # ------------------------------------------------------------------ R19.2 precedence in _classify
     rep.rule("R19.2", "_classify == markers > integer status/code > name heuristics > UNKNOWN, on every combination of marker x integer region x name substrings x heuristics flag")
-    q = "redress.classify:_classify"
+    q = prog.func("redress.classify:_classify").qual
     fi = prog.func(q)
     paths = allpaths[q]
     err = ("param", "err")
@@ -455,7 +466,7 @@ def run(rep: Report, prog: Program, tier: str) -> None:
 
     # ------------------------------------------------------------------ R19.4
     rep.rule("R19.4", "strict never looks at names: every path of _classify that reads the exception's type name has use_name_heuristics true; strict_classifier passes False, default_classifier True")
-    q = "redress.classify:_classify"
+    q = prog.func("redress.classify:_classify").qual
     for p in allpaths[q]:
         reads = any("__name__" in show(a) for a, _pol, _ in p.conds) or any("__name__" in show(e.result) for e in p.calls(pure=None) if e.result is not None)
         flag = next((pol for a, pol, _ in p.conds if a == ("param", "use_name_heuristics")), None)
